@@ -6,40 +6,61 @@ element of the TFLite reference `RsqrtEvalQuantized`, for any constant table tha
 namespace VelaVerif.Lut
 open VelaVerif VelaVerif.FpMath
 
+/-- every input zero point of the int8 range and every code at or above it (`value = x − zp_in ∈ [0, 255]`): the loop
+    body = the reference element.  `value = 0` gives 127 on both sides (in the code either through `x == -128`, which
+    forces `zp_in = -128`, or through `x_real == 0`); `value ≥ 1` is the table lookup. -/
 theorem rsqrt_entry_eq (tbl : List Int)
     (htbl : ∀ n : Nat, n < 256 → n ≠ 0 → tbl[n]? = some (RsqrtRef.rsqrtData (n : Int)))
     (hI : ∀ v ∈ tbl, inI32 v = true)
-    (zpOut mult shift x : Int) (hm : inI32 mult = true) (hs : 11 ≤ shift ∧ shift ≤ 42) (hx : -128 ≤ x ∧ x ≤ 127) :
-    rsqrtEntry tbl (-128) zpOut mult shift x = .ok (RsqrtRef.rsqrtRef (-128) zpOut mult (31 - shift) x) := by
+    (zpIn zpOut mult shift x : Int) (hm : inI32 mult = true) (hs : 11 ≤ shift ∧ shift ≤ 42)
+    (hz : -128 ≤ zpIn ∧ zpIn ≤ 127) (hx : zpIn ≤ x ∧ x ≤ 127) :
+    rsqrtEntry tbl zpIn zpOut mult shift x = .ok (RsqrtRef.rsqrtRef zpIn zpOut mult (31 - shift) x) := by
   unfold rsqrtEntry RsqrtRef.rsqrtRef
+  by_cases h128 : x = -128
+  · have hzp : zpIn = -128 := by omega
+    subst h128
+    subst hzp
+    rfl
+  · have hb : (x == -128) = false := by simpa using h128
+    by_cases h0 : x - zpIn = 0
+    · have hmax : max 0 (x - zpIn) = 0 := by omega
+      have hv : ((x - zpIn) == 0) = true := by simpa using h0
+      simp only [hb, hmax, hv, Bool.false_eq_true, if_false, if_true]
+      rfl
+    · have hv : ((x - zpIn) == 0) = false := by simpa using h0
+      have hmax : max 0 (x - zpIn) = x - zpIn := by omega
+      simp only [hb, hmax, hv, Bool.false_eq_true, if_false]
+      have hn1 : (x - zpIn).toNat < 256 := by omega
+      have hn2 : (x - zpIn).toNat ≠ 0 := by omega
+      have hcast : (((x - zpIn).toNat : Nat) : Int) = x - zpIn := by omega
+      have hget := htbl (x - zpIn).toNat hn1 hn2
+      rw [hcast] at hget
+      rw [hget]
+      simp only []
+      have hmem : RsqrtRef.rsqrtData (x - zpIn) ∈ tbl := List.mem_of_getElem? hget
+      have hv32 := hI _ hmem
+      have hsh : shift - -20 = shift + 20 := by omega
+      rw [hsh]
+      have hfit : inI32 (RsqrtRef.rsqrtData (x - zpIn) * 2 ^ (if 31 - (shift + 20) > 0 then (31 - (shift + 20)).toNat else 0)) = true := by
+        have : ¬ (31 - (shift + 20) > 0) := by omega
+        simp only [this, if_false, Int.pow_zero, Int.mul_one]
+        exact hv32
+      rw [mbqm_eq _ mult (shift + 20) hm (by omega) (by omega) hfit]
+      have e : (31 : Int) - (shift + 20) = 31 - shift - 20 := by omega
+      rw [e]
+      rfl
+
+/-- codes below the input zero point (real input < 0, where the reference kernel fails its "Rsqrt is only defined for
+    positive values" check): the repaired code yields the maximum 127, for any table, multiplier and shift -/
+theorem rsqrt_entry_below (tbl : List Int) (zpIn zpOut mult shift x : Int) (hx : x < zpIn) :
+    rsqrtEntry tbl zpIn zpOut mult shift x = .ok 127 := by
+  unfold rsqrtEntry
   by_cases h128 : x = -128
   · subst h128
     rfl
   · have hb : (x == -128) = false := by simpa using h128
-    have hv : ((x - -128) == 0) = false := by
-      have : x - -128 ≠ 0 := by omega
-      simpa using this
-    simp only [hb, hv, Bool.false_eq_true, if_false]
-    have hmax : max 0 (x - -128) = x - -128 := by omega
-    rw [hmax]
-    have hn1 : (x - -128).toNat < 256 := by omega
-    have hn2 : (x - -128).toNat ≠ 0 := by omega
-    have hcast : (((x - -128).toNat : Nat) : Int) = x - -128 := by omega
-    have hget := htbl (x - -128).toNat hn1 hn2
-    rw [hcast] at hget
-    rw [hget]
-    simp only []
-    have hmem : RsqrtRef.rsqrtData (x - -128) ∈ tbl := List.mem_of_getElem? hget
-    have hv32 := hI _ hmem
-    have hsh : shift - -20 = shift + 20 := by omega
-    rw [hsh]
-    have hfit : inI32 (RsqrtRef.rsqrtData (x - -128) * 2 ^ (if 31 - (shift + 20) > 0 then (31 - (shift + 20)).toNat else 0)) = true := by
-      have : ¬ (31 - (shift + 20) > 0) := by omega
-      simp only [this, if_false, Int.pow_zero, Int.mul_one]
-      exact hv32
-    rw [mbqm_eq _ mult (shift + 20) hm (by omega) (by omega) hfit]
-    have e : (31 : Int) - (shift + 20) = 31 - shift - 20 := by omega
-    rw [e]
+    have hmax : max 0 (x - zpIn) = 0 := by omega
+    simp only [hb, hmax, Bool.false_eq_true, if_false]
     rfl
 
 end VelaVerif.Lut
